@@ -15,6 +15,7 @@ func genExpr(outDir string) {
 	specSuperfluid()
 	specAccum()
 	specIncentives()
+	specCL()
 	writeFnFiles(outDir)
 }
 
